@@ -11,7 +11,7 @@ from z3 import (DeclareSort, EnumSort, Function, Const, Consts, IntSort, BoolSor
                 StringSort, StringVal)
 
 IR_CLASSES = ['Netlist', 'Library', 'Definition', 'Port', 'Cable', 'Wire', 'Instance', 'InnerPin', 'OuterPin']
-EXTRA_CLASSES = ['Dict', 'DefaultNamespace', 'EdifNamespace']      # heap dictionaries and the policy objects of the namespace plugin (C10)
+EXTRA_CLASSES = ['Dict', 'DefaultNamespace', 'EdifNamespace', 'HRef']      # heap dictionaries and the policy objects of the namespace plugin (C10)
 CLASSES = ['NoneType', 'Foreign'] + IR_CLASSES + EXTRA_CLASSES
 
 # field name -> (owner classes, kind)   kind: ref | list | set | odict | val
@@ -136,6 +136,8 @@ class Ctx:
         h['g_kind'] = Const('g_kind' + tag, ArraySort(R, IntSort()))
         h['g_tkey'] = Const('g_tkey' + tag, ArraySort(R, R))
         h['g_par'] = Const('g_par' + tag, ArraySort(R, R))          # policy object -> the parent element it serves
+        # hierarchical references (spydrnet/util/hierarchical_reference.py): immutable nodes with a parent node and an item
+        h['hr_parent'] = Const('hr_parent' + tag, ArraySort(R, R)); h['hr_item'] = Const('hr_item' + tag, ArraySort(R, R))
         h['ns'] = Const('ns' + tag, ArraySort(R, DeclareSort('NsState')))   # opaque per-parent state of the stock listener's name tables
         h['nsdefault'] = Const('nsdefault' + tag, R)
         return h
